@@ -1,13 +1,1376 @@
 package main
 
-// Extension slot A: request lines (goExecExtA) and generators (registered with regExtra) of one model extension.
+// Extension slot A: package `basic` (/repo/basic/key.go) — the library's own
+// keyring and key objects — against lean/Saltpack/Model/Basic.lean.
+//
+// Both sides build the SAME basic keyring from a spec (the ImportBoxKey /
+// ImportSigningKey calls in order); the request lines are documented in
+// lean/Driver/ExtA.lean.  goExecExtA runs the REAL basic.Keyring /
+// basic.SecretKey / basic.EphemeralKeyCreator.
+
+import (
+	"bytes"
+	"fmt"
+	"io"
+	"sort"
+	"strings"
+
+	"github.com/keybase/saltpack"
+	"github.com/keybase/saltpack/basic"
+	"verifharness/internal/keys"
+	"verifharness/internal/prng"
+	"verifharness/internal/script"
+)
+
+type bkEntry struct{ pub, sec []byte }
+
+func bkSpec(es []bkEntry) string {
+	if len(es) == 0 {
+		return "-"
+	}
+	p := make([]string, len(es))
+	for i, e := range es {
+		p[i] = keys.Hex(e.pub) + ":" + keys.Hex(e.sec)
+	}
+	return strings.Join(p, ",")
+}
+
+func bkParse(s string) []bkEntry {
+	var out []bkEntry
+	for _, t := range splitL(s) {
+		p := strings.Split(t, ":")
+		out = append(out, bkEntry{unhex(p[0]), unhex(p[1])})
+	}
+	return out
+}
+
+// bkRing builds the real keyring by the calls the spec lists.
+func bkRing(boxspec, sigspec string) *basic.Keyring {
+	k := basic.NewKeyring()
+	for _, e := range bkParse(boxspec) {
+		var pub, sec [32]byte
+		if len(e.pub) != 32 || len(e.sec) != 32 {
+			panic("bk spec: box key lengths")
+		}
+		copy(pub[:], e.pub)
+		copy(sec[:], e.sec)
+		k.ImportBoxKey(&pub, &sec)
+	}
+	for _, e := range bkParse(sigspec) {
+		var pub [32]byte
+		var sec [64]byte
+		if len(e.pub) != 32 || len(e.sec) != 64 {
+			panic("bk spec: signing key lengths")
+		}
+		copy(pub[:], e.pub)
+		copy(sec[:], e.sec)
+		k.ImportSigningKey(&pub, &sec)
+	}
+	return k
+}
+
+func bkHexList(s string) [][]byte {
+	var out [][]byte
+	for _, t := range splitL(s) {
+		out = append(out, unhex(t))
+	}
+	return out
+}
+
+// the box secret keys of a keyring, as the model prints them (unsorted: map order)
+func bkAll(k *basic.Keyring) string {
+	all := k.GetAllBoxSecretKeys()
+	if len(all) == 0 {
+		return "-"
+	}
+	p := make([]string, len(all))
+	for i, sk := range all {
+		b := sk.(basic.SecretKey)
+		p[i] = keys.Hex(b.GetRawPublicKey()[:]) + ":" + keys.Hex(b.GetRawSecretKey()[:])
+	}
+	return strings.Join(p, ",")
+}
+
+// bkCmpAll: exact, except that an `all=<list>` token is compared as a multiset
+// (GetAllBoxSecretKeys iterates a Go map).
+func bkCmpAll(a, b string) bool {
+	norm := func(s string) string {
+		f := strings.Fields(s)
+		for i, t := range f {
+			if strings.HasPrefix(t, "all=") {
+				l := strings.Split(t[4:], ",")
+				sort.Strings(l)
+				f[i] = "all=" + strings.Join(l, ",")
+			}
+		}
+		return strings.Join(f, " ")
+	}
+	return norm(a) == norm(b)
+}
+
+func bkExc(b []byte, err error) string {
+	if err != nil {
+		return "err:" + script.Class(err)
+	}
+	return "ok:" + keys.Hex(b)
+}
+
+func bkMki(m *saltpack.MessageKeyInfo) string {
+	named := "-"
+	if len(m.NamedReceivers) > 0 {
+		named = keys.HexList(m.NamedReceivers)
+	}
+	rs := m.ReceiverKey.(basic.SecretKey)
+	return fmt.Sprintf("sender=%s anon=%s recvsec=%s ranon=%s named=%s nanon=%d",
+		keys.Hex(m.SenderKey.ToKID()), boolS(m.SenderIsAnon), keys.Hex(rs.GetRawSecretKey()[:]),
+		boolS(m.ReceiverIsAnon), named, m.NumAnonReceivers)
+}
+
+func bkPub(raw []byte) basic.PublicKey {
+	var p basic.PublicKey
+	copy(p.RawBoxKey[:], raw)
+	return p
+}
+
+func bkSecret(sec []byte) basic.SecretKey {
+	var s, p [32]byte
+	copy(s[:], sec)
+	copy(p[:], boxPub(sec))
+	return basic.NewSecretKey(&p, &s)
+}
+
+func bkSigSecret(seed []byte) basic.SigningSecretKey {
+	var p [32]byte
+	var s [64]byte
+	copy(p[:], sigPub(seed))
+	copy(s[:], seed)
+	copy(s[32:], p[:])
+	return basic.NewSigningSecretKey(&p, &s)
+}
 
 func goExecExtA(t []string) (string, bool) {
 	switch t[0] {
+	case "bk.kid":
+		kid := unhex(t[1])
+		k := basic.NewKeyring()
+		show := func(kidder interface{ ToKID() []byte }, isNil bool) string {
+			if isNil {
+				return "nil"
+			}
+			return keys.Hex(kidder.ToKID())
+		}
+		lp := k.LookupBoxPublicKey(kid)
+		ie := k.ImportBoxEphemeralKey(kid)
+		ls := k.LookupSigningPublicKey(kid)
+		return fmt.Sprintf("ok lp=%s ie=%s lsig=%s", show(lp, lp == nil), show(ie, ie == nil), show(ls, ls == nil)), true
+	case "bk.lookup":
+		k := bkRing(t[1], "-")
+		i, sk := k.LookupBoxSecretKey(bkHexList(t[2]))
+		if sk == nil {
+			return fmt.Sprintf("ok %d nil", i), true
+		}
+		b := sk.(basic.SecretKey)
+		return fmt.Sprintf("ok %d pub=%s sec=%s", i, keys.Hex(b.GetPublicKey().ToKID()), keys.Hex(b.GetRawSecretKey()[:])), true
+	case "bk.all":
+		return "ok all=" + bkAll(bkRing(t[1], "-")), true
+	case "bk.keyops":
+		var pub, sec [32]byte
+		copy(pub[:], unhex(t[1]))
+		copy(sec[:], unhex(t[2]))
+		k := basic.NewSecretKey(&pub, &sec)
+		peer := bkPub(unhex(t[3]))
+		var nonce saltpack.Nonce
+		copy(nonce[:], unhex(t[4]))
+		msg := unhex(t[5])
+		bx := k.Box(peer, nonce, msg)
+		pre := k.Precompute(peer)
+		praw := pre.(basic.PrecomputedSharedKey)
+		sbx := pre.Box(nonce, msg)
+		return fmt.Sprintf("ok pub=%s kid=%s hide=%s box=%s rt=%s unbox=%s pre=%s sbox=%s srt=%s sunbox=%s",
+			keys.Hex(k.GetRawPublicKey()[:]), keys.Hex(k.GetPublicKey().ToKID()), boolS(k.GetPublicKey().HideIdentity()),
+			keys.Hex(bx), bkExc(k.Unbox(peer, nonce, bx)), bkExc(k.Unbox(peer, nonce, msg)), keys.Hex(praw[:]),
+			keys.Hex(sbx), bkExc(pre.Unbox(nonce, sbx)), bkExc(pre.Unbox(nonce, msg))), true
+	case "bk.sigops":
+		k := bkSigSecret(unhex(t[1]))
+		msg := unhex(t[2])
+		sg, err := k.Sign(msg)
+		if err != nil {
+			return "err " + script.Class(err), true
+		}
+		pk := k.GetPublicKey()
+		return fmt.Sprintf("ok pub=%s sig=%s verify=%s verify2=%s", keys.Hex(pk.ToKID()), keys.Hex(sg),
+			script.Class(pk.Verify(msg, sg)), script.Class(pk.Verify(msg, unhex(t[3])))), true
+	case "bk.eph":
+		src := parseSource(t[1])
+		var sk saltpack.BoxSecretKey
+		var err error
+		script.With(src, func() { sk, err = basic.EphemeralKeyCreator{}.CreateEphemeralKey() })
+		if err != nil {
+			if p, ok := sk.(*basic.SecretKey); sk != nil && !(ok && p == nil) {
+				return "err " + script.Class(err) + " BUT-A-KEY-WAS-RETURNED", true
+			}
+			return "err " + script.Class(err), true
+		}
+		b := sk.(*basic.SecretKey)
+		return fmt.Sprintf("ok pub=%s sec=%s reads=%d", keys.Hex(b.GetRawPublicKey()[:]), keys.Hex(b.GetRawSecretKey()[:]), src.Consumed()), true
+	case "bk.genbox":
+		k := bkRing(t[1], "-")
+		src := parseSource(t[2])
+		var sk *basic.SecretKey
+		var err error
+		script.With(src, func() { sk, err = k.GenerateBoxKey() })
+		if err != nil {
+			extra := ""
+			if sk != nil {
+				extra = " BUT-A-KEY-WAS-RETURNED"
+			}
+			return "err " + script.Class(err) + extra + " all=" + bkAll(k), true
+		}
+		return fmt.Sprintf("ok pub=%s sec=%s reads=%d all=%s", keys.Hex(sk.GetRawPublicKey()[:]), keys.Hex(sk.GetRawSecretKey()[:]), src.Consumed(), bkAll(k)), true
+	case "bk.gensig":
+		k := bkRing(t[1], t[2])
+		src := parseSource(t[3])
+		var sk *basic.SigningSecretKey
+		var err error
+		script.With(src, func() { sk, err = k.GenerateSigningKey() })
+		if err != nil {
+			extra := ""
+			if sk != nil {
+				extra = " BUT-A-KEY-WAS-RETURNED"
+			}
+			return "err " + script.Class(err) + extra + " all=" + bkAll(k), true
+		}
+		return fmt.Sprintf("ok pub=%s sec=%s reads=%d all=%s", keys.Hex(sk.GetRawPublicKey()[:]), keys.Hex(sk.GetRawSecretKey()[:]), src.Consumed(), bkAll(k)), true
+	case "bk.enc.open":
+		return bkEncOpen(t), true
+	case "bk.sc.open":
+		return bkScOpen(t), true
+	case "bk.sig.verify":
+		return bkVerify(t), true
+	case "bk.sig.verifydetached":
+		k := bkRing("-", t[2])
+		skey, err := saltpack.VerifyDetached(parseValidator(t[1]), unhex(t[4]), unhex(t[3]), k)
+		if err != nil {
+			return fmt.Sprintf("res %s signer=-", script.Class(err)), true
+		}
+		return fmt.Sprintf("res ok signer=%s", keys.Hex(skey.ToKID())), true
+	case "bk.enc.seal":
+		// bk.enc.seal ma mi sender recips src pt — every key object is basic's
+		v := version(t[1], t[2])
+		var sender saltpack.BoxSecretKey
+		if t[3] != "anon" {
+			sender = bkSecret(unhex(t[3]))
+		}
+		var rs []saltpack.BoxPublicKey
+		for _, p := range bkHexList(t[4]) {
+			rs = append(rs, bkPub(p))
+		}
+		src := parseSource(t[5])
+		pt := unhex(t[6])
+		var out []byte
+		var err error
+		script.With(src, func() {
+			if currentWrites != nil && len(rs) > 0 {
+				out, err = viaStream(pt, func(w io.Writer) (io.WriteCloser, error) { return saltpack.NewEncryptStream(v, w, sender, rs) })
+			} else {
+				out, err = saltpack.Seal(v, pt, sender, rs)
+			}
+		})
+		return sealResult(out, err, src), true
+	case "bk.sc.seal":
+		var sender saltpack.SigningSecretKey
+		if t[1] != "anon" {
+			sender = bkSigSecret(unhex(t[1]))
+		}
+		var rs []saltpack.BoxPublicKey
+		for _, p := range bkHexList(t[2]) {
+			rs = append(rs, bkPub(p))
+		}
+		src := parseSource(t[3])
+		var out []byte
+		var err error
+		script.With(src, func() {
+			out, err = saltpack.SigncryptSeal(unhex(t[4]), basic.EphemeralKeyCreator{}, sender, rs, nil)
+		})
+		return sealResult(out, err, src), true
+	case "bk.sig.attached", "bk.sig.detached":
+		v := version(t[1], t[2])
+		signer := bkSigSecret(unhex(t[3]))
+		src := parseSource(t[4])
+		var out []byte
+		var err error
+		script.With(src, func() {
+			if t[0] == "bk.sig.attached" {
+				out, err = saltpack.Sign(v, unhex(t[5]), signer)
+			} else {
+				out, err = saltpack.SignDetached(v, unhex(t[5]), signer)
+			}
+		})
+		return sealResult(out, err, src), true
 	}
 	return "", false
 }
 
+// bk.enc.open valid boxspec msg
+func bkEncOpen(t []string) string {
+	k := bkRing(t[2], "-")
+	msg := unhex(t[3])
+	var mki *saltpack.MessageKeyInfo
+	var r io.Reader
+	var err error
+	atOnce := func(pt []byte) string {
+		if err != nil {
+			return fmt.Sprintf("res %s rel=- -", script.Class(err))
+		}
+		return fmt.Sprintf("res ok rel=%s %s", keys.Hex(pt), bkMki(mki))
+	}
+	switch currentEP {
+	case "all":
+		var pt []byte
+		mki, pt, err = saltpack.Open(parseValidator(t[1]), msg, k)
+		return atOnce(pt)
+	case "arm":
+		arm, _ := saltpack.Armor62Seal(msg, saltpack.MessageTypeEncryption, "")
+		var pt []byte
+		mki, pt, _, err = saltpack.Dearmor62DecryptOpen(parseValidator(t[1]), arm, k)
+		return atOnce(pt)
+	case "armstream":
+		arm, _ := saltpack.Armor62Seal(msg, saltpack.MessageTypeEncryption, "")
+		mki, r, _, err = saltpack.NewDearmor62DecryptStream(parseValidator(t[1]), readerFor([]byte(arm)), k)
+	default:
+		mki, r, err = saltpack.NewDecryptStream(parseValidator(t[1]), msgReader(msg), k)
+	}
+	if err != nil {
+		return fmt.Sprintf("res %s rel=- -", script.Class(err))
+	}
+	rel, err := readAllCollect(r, 4096)
+	m := "-"
+	if err == nil {
+		m = bkMki(mki)
+	}
+	return fmt.Sprintf("res %s rel=%s %s", script.Class(err), keys.Hex(rel), m)
+}
+
+// bk.sc.open boxspec resolver msg
+func bkScOpen(t []string) string {
+	k := bkRing(t[1], "-")
+	msg := unhex(t[3])
+	var spk saltpack.SigningPublicKey
+	var r io.Reader
+	var err error
+	snd := func() string {
+		if spk == nil {
+			return "anon"
+		}
+		return keys.Hex(spk.ToKID())
+	}
+	atOnce := func(pt []byte) string {
+		if err != nil {
+			return fmt.Sprintf("res %s rel=- sender=-", script.Class(err))
+		}
+		return fmt.Sprintf("res ok rel=%s sender=%s", keys.Hex(pt), snd())
+	}
+	switch currentEP {
+	case "all":
+		var pt []byte
+		spk, pt, err = saltpack.SigncryptOpen(msg, k, parseResolver(t[2]))
+		return atOnce(pt)
+	case "arm":
+		arm, _ := saltpack.Armor62Seal(msg, saltpack.MessageTypeEncryption, "")
+		var pt []byte
+		spk, pt, _, err = saltpack.Dearmor62SigncryptOpen(arm, k, parseResolver(t[2]))
+		return atOnce(pt)
+	case "armstream":
+		arm, _ := saltpack.Armor62Seal(msg, saltpack.MessageTypeEncryption, "")
+		spk, r, _, err = saltpack.NewDearmor62SigncryptOpenStream(readerFor([]byte(arm)), k, parseResolver(t[2]))
+	default:
+		spk, r, err = saltpack.NewSigncryptOpenStream(msgReader(msg), k, parseResolver(t[2]))
+	}
+	if err != nil {
+		return fmt.Sprintf("res %s rel=- sender=-", script.Class(err))
+	}
+	rel, err := readAllCollect(r, 4096)
+	s := "-"
+	if err == nil {
+		s = snd()
+	}
+	return fmt.Sprintf("res %s rel=%s sender=%s", script.Class(err), keys.Hex(rel), s)
+}
+
+// bk.sig.verify valid sigspec msg
+func bkVerify(t []string) string {
+	k := bkRing("-", t[2])
+	msg := unhex(t[3])
+	var skey saltpack.SigningPublicKey
+	var r io.Reader
+	var err error
+	atOnce := func(pt []byte) string {
+		if err != nil {
+			return fmt.Sprintf("res %s rel=- signer=-", script.Class(err))
+		}
+		return fmt.Sprintf("res ok rel=%s signer=%s", keys.Hex(pt), keys.Hex(skey.ToKID()))
+	}
+	switch currentEP {
+	case "all":
+		var pt []byte
+		skey, pt, err = saltpack.Verify(parseValidator(t[1]), msg, k)
+		return atOnce(pt)
+	case "arm":
+		arm, _ := saltpack.Armor62Seal(msg, saltpack.MessageTypeAttachedSignature, "")
+		var pt []byte
+		skey, pt, _, err = saltpack.Dearmor62Verify(parseValidator(t[1]), arm, k)
+		return atOnce(pt)
+	case "armstream":
+		arm, _ := saltpack.Armor62Seal(msg, saltpack.MessageTypeAttachedSignature, "")
+		skey, r, _, err = saltpack.NewDearmor62VerifyStream(parseValidator(t[1]), readerFor([]byte(arm)), k)
+	default:
+		skey, r, err = saltpack.NewVerifyStream(parseValidator(t[1]), msgReader(msg), k)
+	}
+	if err != nil {
+		return fmt.Sprintf("res %s rel=- signer=-", script.Class(err))
+	}
+	rel, err := readAllCollect(r, 4096)
+	s := "-"
+	if err == nil {
+		s = keys.Hex(skey.ToKID())
+	}
+	return fmt.Sprintf("res %s rel=%s signer=%s", script.Class(err), keys.Hex(rel), s)
+}
+
+// ---------------------------------------------------------------------------
+// the decoded-packets route for the bk.* receivers
+
+func bkFallback(line string) func() string {
+	return func() string {
+		ep := ""
+		t := strings.Fields(line)
+		if len(t) > 1 && strings.HasPrefix(t[len(t)-1], "ep=") {
+			ep = " " + t[len(t)-1]
+			t = t[:len(t)-1]
+		}
+		switch t[0] {
+		case "bk.enc.open":
+			hdr, hf, items, tail := listingTokens("enc", unhex(t[3]))
+			return fmt.Sprintf("bk.enc.openp %s %s %s %s %s %s", t[1], t[2], hdr, hf, items, tail) + ep
+		case "bk.sc.open":
+			hdr, hf, items, tail := listingTokens("signcrypt", unhex(t[3]))
+			return fmt.Sprintf("bk.sc.openp %s %s %s %s %s %s", t[1], t[2], hdr, hf, items, tail) + ep
+		case "bk.sig.verify":
+			hdr, hf, items, tail := listingTokens("sig", unhex(t[3]))
+			return fmt.Sprintf("bk.sig.verifyp %s %s %s %s %s %s", t[1], t[2], hdr, hf, items, tail) + ep
+		case "bk.sig.verifydetached":
+			sigmsg := unhex(t[3])
+			hdr, hf, _, _ := listingTokens("sig", sigmsg)
+			l := saltpack.VerifListPackets("det", sigmsg)
+			sg := "E"
+			if l.HeaderState == "ok" {
+				if l.DetachedSigErr == nil {
+					sg = "S:" + keys.Hex(l.DetachedSig)
+				} else if l.DetachedSigErr != io.EOF {
+					sg = "R"
+				}
+			}
+			return fmt.Sprintf("bk.sig.verifydetachedp %s %s %s %s %s %s", t[1], t[2], hdr, hf, sg, t[4])
+		}
+		return ""
+	}
+}
+
+// ---------------------------------------------------------------------------
+// generators
+
+// honest entry for a secret
+func bkHonest(sec []byte) bkEntry { return bkEntry{boxPub(sec), sec} }
+
+func bkShuffle(r *prng.R, es []bkEntry) []bkEntry {
+	out := append([]bkEntry(nil), es...)
+	for i := len(out) - 1; i > 0; i-- {
+		j := r.Intn(i + 1)
+		out[i], out[j] = out[j], out[i]
+	}
+	return out
+}
+
+// last-import-wins oracle for LookupBoxSecretKey, written independently of model and code
+func bkLookupOracle(es []bkEntry, kids [][]byte) string {
+	m := map[string]bkEntry{}
+	for _, e := range es {
+		m[string(e.pub)] = e
+	}
+	for i, kid := range kids {
+		p := make([]byte, 32)
+		copy(p, kid)
+		if e, ok := m[string(p)]; ok {
+			return fmt.Sprintf("ok %d pub=%s sec=%s", i, keys.Hex(e.pub), keys.Hex(e.sec))
+		}
+	}
+	return "ok -1 nil"
+}
+
+func genBasicLookups(ctx *Ctx, emit func(Case)) {
+	r := ctx.R.Fork()
+	// kidToPublicKey through the three never-nil lookups, every interesting length
+	for _, n := range []int{0, 1, 2, 16, 31, 32, 33, 40, 64, 65, 100} {
+		line := "bk.kid " + hexOrDash(r.Bytes(n))
+		out := goExec(line)
+		emit(Case{Stream: "basic.kid", Line: line, GoOut: out, Branch: fmt.Sprintf("len=%d", n),
+			Direct: func() string {
+				if strings.Contains(out, "nil") {
+					return "a basic.Keyring lookup returned nil: " + line + " -> " + out
+				}
+				return ""
+			}})
+	}
+	// LookupBoxSecretKey
+	for c := 0; c < ctx.N(70, 1200); c++ {
+		n := prng.Pick(r, 0, 1, 1, 2, 3, 3, 5)
+		var es []bkEntry
+		for i := 0; i < n; i++ {
+			e := bkHonest(r.Bytes(32))
+			switch r.Intn(8) {
+			case 0: // a public key that does not belong to the secret
+				e.pub = r.Bytes(32)
+			case 1: // a public key ending in zero bytes: a SHORT kid can name it
+				z := 1 + r.Intn(4)
+				for j := 32 - z; j < 32; j++ {
+					e.pub[j] = 0
+				}
+			case 2: // re-import of an earlier public key with another secret: the map entry is overwritten
+				if len(es) > 0 {
+					e.pub = es[r.Intn(len(es))].pub
+				}
+			}
+			es = append(es, e)
+		}
+		nk := prng.Pick(r, 0, 1, 1, 2, 3, 4, 6)
+		var kids [][]byte
+		kind := ""
+		for i := 0; i < nk; i++ {
+			var kid []byte
+			k := r.Intn(9)
+			switch {
+			case k <= 2 && len(es) > 0: // present
+				kid = append([]byte(nil), es[r.Intn(len(es))].pub...)
+				kind += "p"
+			case k == 3 && len(es) > 0: // present, with trailing bytes (too long: truncated by copy)
+				kid = append(append([]byte(nil), es[r.Intn(len(es))].pub...), r.Bytes(1+r.Intn(3))...)
+				kind += "L"
+			case k == 4 && len(es) > 0: // present with its trailing zero bytes cut off (too short: padded by copy)
+				kid = append([]byte(nil), es[r.Intn(len(es))].pub...)
+				for len(kid) > 0 && kid[len(kid)-1] == 0 {
+					kid = kid[:len(kid)-1]
+				}
+				if len(kid) == 32 {
+					kid = kid[:31] // now absent (unless byte 31 was 0)
+				}
+				kind += "S"
+			case k == 5 && len(kids) > 0: // duplicate of an earlier kid
+				kid = append([]byte(nil), kids[r.Intn(len(kids))]...)
+				kind += "d"
+			case k == 6: // absent, wrong length
+				kid = r.Bytes(prng.Pick(r, 1, 31, 33, 64))
+				kind += "w"
+			default: // absent
+				kid = r.Bytes(32)
+				kind += "a"
+			}
+			kids = append(kids, kid)
+		}
+		if len(kids) == 1 && len(kids[0]) == 0 {
+			continue
+		}
+		ks := make([]string, len(kids))
+		for i, k := range kids {
+			ks[i] = hexOrDash(k)
+		}
+		kl := "-"
+		if len(ks) > 0 {
+			kl = strings.Join(ks, ",")
+		}
+		line := fmt.Sprintf("bk.lookup %s %s", bkSpec(es), kl)
+		out := goExec(line)
+		emit(Case{Stream: "basic.lookup", Line: line, GoOut: out, Branch: fmt.Sprintf("keys=%d/kids=%s/%s", len(es), kind, strings.Fields(out)[1]),
+			Direct: func() string {
+				if want := bkLookupOracle(es, kids); want != out {
+					return fmt.Sprintf("basic.Keyring.LookupBoxSecretKey: got %q, the first kid whose 32-byte copy is an imported public key gives %q; request %s", out, want, line)
+				}
+				return ""
+			}})
+	}
+	// every position of a 4-key ring, kid list naming every key in reverse order
+	{
+		var es []bkEntry
+		for i := 0; i < 4; i++ {
+			es = append(es, bkHonest(r.Bytes(32)))
+		}
+		for i := range es {
+			for j := range es {
+				line := fmt.Sprintf("bk.lookup %s %s,%s,%s", bkSpec(es), keys.Hex(r.Bytes(32)), keys.Hex(es[i].pub), keys.Hex(es[j].pub))
+				out := goExec(line)
+				emit(Case{Stream: "basic.lookup", Line: line, GoOut: out, Branch: fmt.Sprintf("positions/%d.%d", i, j)})
+			}
+		}
+	}
+	// GetAllBoxSecretKeys
+	for c := 0; c < ctx.N(12, 100); c++ {
+		n := prng.Pick(r, 0, 1, 2, 3, 6)
+		var es []bkEntry
+		for i := 0; i < n; i++ {
+			e := bkHonest(r.Bytes(32))
+			if len(es) > 0 && r.Intn(4) == 0 {
+				e.pub = es[r.Intn(len(es))].pub
+			}
+			es = append(es, e)
+		}
+		line := "bk.all " + bkSpec(es)
+		out := goExec(line)
+		emit(Case{Stream: "basic.all", Line: line, GoOut: out, Cmp: bkCmpAll, Branch: fmt.Sprintf("imports=%d", n)})
+	}
+}
+
+func genBasicKeyObjects(ctx *Ctx, emit func(Case)) {
+	r := ctx.R.Fork()
+	for c := 0; c < ctx.N(12, 120); c++ {
+		sec := r.Bytes(32)
+		pub := boxPub(sec)
+		if r.Intn(4) == 0 {
+			pub = r.Bytes(32)
+		}
+		line := fmt.Sprintf("bk.keyops %s %s %s %s %s", keys.Hex(pub), keys.Hex(sec), keys.Hex(boxPub(r.Bytes(32))), keys.Hex(r.Bytes(24)),
+			hexOrDash(r.Bytes(prng.Pick(r, 0, 1, 15, 16, 17, 40))))
+		out := goExec(line)
+		emit(Case{Stream: "basic.keyops", Line: line, GoOut: out, Branch: "box/unbox/precompute"})
+	}
+	for c := 0; c < ctx.N(8, 60); c++ {
+		seed := r.Bytes(32)
+		msg := r.Bytes(prng.Pick(r, 0, 1, 33, 100))
+		other := r.Bytes(prng.Pick(r, 0, 63, 64, 65))
+		if r.Intn(3) == 0 { // the genuine signature of another message
+			s2, _ := bkSigSecret(seed).Sign(append([]byte{1}, msg...))
+			other = s2
+		}
+		line := fmt.Sprintf("bk.sigops %s %s %s", keys.Hex(seed), hexOrDash(msg), hexOrDash(other))
+		out := goExec(line)
+		emit(Case{Stream: "basic.sigops", Line: line, GoOut: out, Branch: "sign/verify"})
+	}
+}
+
+// scripts for one 32-byte io.ReadFull, clean and faulty
+func bkSeedScripts(r *prng.R) []struct {
+	label string
+	src   *script.Source
+} {
+	type S = struct {
+		label string
+		src   *script.Source
+	}
+	d := r.Bytes(32)
+	mk := func(rs ...script.Read) *script.Source { return &script.Source{Reads: rs} }
+	return []S{
+		{"one-read", mk(script.Read{Data: d})},
+		{"1+31", mk(script.Read{Data: d[:1]}, script.Read{Data: d[1:]})},
+		{"31+1", mk(script.Read{Data: d[:31]}, script.Read{Data: d[31:]})},
+		{"10+10+12", mk(script.Read{Data: d[:10]}, script.Read{Data: d[10:20]}, script.Read{Data: d[20:]})},
+		{"bytewise", func() *script.Source {
+			s := &script.Source{}
+			for i := range d {
+				s.Reads = append(s.Reads, script.Read{Data: d[i : i+1]})
+			}
+			return s
+		}()},
+		{"more-follows", mk(script.Read{Data: d}, script.Read{Data: r.Bytes(32)})},
+		{"offered-40", mk(script.Read{Data: append(append([]byte(nil), d...), r.Bytes(8)...)})},
+		{"completing-read-with-error", mk(script.Read{Data: d, Err: true})},
+		{"16+16-with-error", mk(script.Read{Data: d[:16]}, script.Read{Data: d[16:], Err: true})},
+		{"empty-script", mk()},
+		{"error-no-data", mk(script.Read{Err: true})},
+		{"short-then-error", mk(script.Read{Data: d[:31], Err: true})},
+		{"short-then-end", mk(script.Read{Data: d[:31]})},
+		{"16-then-error", mk(script.Read{Data: d[:16]}, script.Read{Err: true})},
+		{"transient-error-then-data", mk(script.Read{Err: true}, script.Read{Data: d})},
+		{"1-byte-with-error-then-data", mk(script.Read{Data: d[:1], Err: true}, script.Read{Data: d[1:]})},
+	}
+}
+
+// the first 32 data bytes a script offers before its first failure, or nil
+func bkFirst32(src *script.Source) []byte {
+	var got []byte
+	for _, rd := range src.Reads {
+		need := 32 - len(got)
+		d := rd.Data
+		if len(d) > need {
+			d = d[:need]
+		}
+		got = append(got, d...)
+		if len(got) == 32 {
+			return got
+		}
+		if rd.Err {
+			return nil
+		}
+	}
+	return nil
+}
+
+func genBasicCreator(ctx *Ctx, emit func(Case)) {
+	r := ctx.R.Fork()
+	for round := 0; round < ctx.N(1, 12); round++ {
+		for _, s := range bkSeedScripts(r) {
+			s := s
+			// EphemeralKeyCreator
+			line := "bk.eph " + s.src.Spec()
+			out := goExec(line)
+			emit(Case{Stream: "basic.eph", Line: line, GoOut: out, Branch: s.label + "/" + strings.Fields(out)[0],
+				Direct: func() string {
+					want := bkFirst32(s.src)
+					if strings.Contains(out, "BUT-A-KEY") {
+						return "basic.EphemeralKeyCreator returned a key together with an error: " + line
+					}
+					if want == nil {
+						if !strings.HasPrefix(out, "err") {
+							return fmt.Sprintf("basic.EphemeralKeyCreator made a key although the source failed before 32 bytes: %s -> %s", line, out)
+						}
+						return ""
+					}
+					exp := fmt.Sprintf("ok pub=%s sec=%s", keys.Hex(boxPub(want)), keys.Hex(want))
+					if !strings.HasPrefix(out, exp+" ") {
+						return fmt.Sprintf("basic.EphemeralKeyCreator: the key is not the first 32 bytes of the source: %s -> %s", line, out)
+					}
+					return ""
+				}})
+			// Keyring.GenerateBoxKey into a ring of 0..2 keys (sometimes the very key it will generate)
+			var es []bkEntry
+			for i := r.Intn(3); i > 0; i-- {
+				es = append(es, bkHonest(r.Bytes(32)))
+			}
+			if w := bkFirst32(s.src); w != nil && r.Intn(3) == 0 {
+				es = append(es, bkEntry{boxPub(w), r.Bytes(32)}) // same public key, other secret: overwritten
+			}
+			line2 := fmt.Sprintf("bk.genbox %s %s", bkSpec(es), s.src.Spec())
+			out2 := goExec(line2)
+			emit(Case{Stream: "basic.genbox", Line: line2, GoOut: out2, Cmp: bkCmpAll, Branch: s.label + "/" + strings.Fields(out2)[0],
+				Direct: func() string {
+					if strings.Contains(out2, "BUT-A-KEY") {
+						return "basic.Keyring.GenerateBoxKey returned a key together with an error: " + line2
+					}
+					return ""
+				}})
+			// Keyring.GenerateSigningKey
+			line3 := fmt.Sprintf("bk.gensig %s - %s", bkSpec(es), s.src.Spec())
+			out3 := goExec(line3)
+			emit(Case{Stream: "basic.gensig", Line: line3, GoOut: out3, Cmp: bkCmpAll, Branch: s.label + "/" + strings.Fields(out3)[0],
+				Direct: func() string {
+					if strings.Contains(out3, "BUT-A-KEY") {
+						return "basic.Keyring.GenerateSigningKey returned a key together with an error: " + line3
+					}
+					return ""
+				}})
+		}
+	}
+}
+
+// bkMutationCases: like mutationCases, for bk.* request lines
+func bkMutationCases(stream string, f *family, muts []mutation, emit func(Case)) {
+	for mi, m := range muts {
+		m := m
+		line := f.openLine(m.msg)
+		if mi%4 != 0 {
+			line += " ep=" + []string{"all", "arm", "armstream"}[mi%3]
+		}
+		out := goExec(line)
+		lbl := m.label
+		if i := strings.IndexAny(lbl, "0123456789"); i > 0 && (lbl[0] == 'p' || lbl[0] == 'f') {
+			lbl = lbl[:1] + lbl[strings.Index(lbl, "."):]
+		}
+		emit(Case{Stream: stream, Line: line, GoOut: out, Cmp: resCmp, Fallback: bkFallback(line),
+			Branch: fmt.Sprintf("%s.v%d/%s/%s", f.mode, f.major, lbl, resClass(out)),
+			Direct: func() string {
+				if strings.Contains(line, " ep=a") && !strings.Contains(line, "ep=armstream") && resClass(out) != "ok" && len(resReleased(out)) != 0 {
+					return "an all-at-once entry point returned bytes together with an error: " + trunc(line, 600)
+				}
+				return authPredicate(f, m.label, m.msg, out)
+			}})
+	}
+}
+
+func bkSomeMutations(ctx *Ctx, r *prng.R, f *family, quickN, thoroughN int) []mutation {
+	all := allMutations(ctx, r, f, false)
+	var muts []mutation
+	for _, g := range f.msgs {
+		muts = append(muts, mutation{"genuine", g.msg})
+	}
+	n := ctx.N(quickN, thoroughN)
+	if n >= len(all) {
+		return append(muts, all...)
+	}
+	step := len(all) / n
+	for i := r.Intn(step + 1); i < len(all); i += step {
+		muts = append(muts, all[i])
+	}
+	return muts
+}
+
+// Open with the real basic.Keyring: genuine messages at every recipient position, rings with other
+// keys in every import order, mutated and forged messages, rings without a key
+func genBasicEncOpen(ctx *Ctx, emit func(Case)) {
+	r := ctx.R.Fork()
+	for fi := 0; fi < ctx.N(6, 40); fi++ {
+		nr := prng.Pick(r, 1, 2, 3, 4)
+		c := encFamilyCfg{major: 1 + fi%2, anon: r.Intn(4) == 0, nRecips: nr, openerPos: r.Intn(nr), hidden: randHidden(r, nr),
+			bs: prng.Pick(r, 5, 16, 64), ptLens: []int{prng.Pick(r, 0, 1, 5, 33), prng.Pick(r, 2, 17, 40)}}
+		f, secs := buildEncFamily(r, c)
+		// the ring: the opener's key, foreign keys, and other recipients' keys as long as the
+		// outcome does not depend on Go's map order (two HIDDEN recipients in one ring: see basic.enc.open.order)
+		es := []bkEntry{bkHonest(secs[c.openerPos])}
+		for i := r.Intn(3); i > 0; i-- {
+			es = append(es, bkHonest(r.Bytes(32)))
+		}
+		for i := range secs {
+			if i != c.openerPos && !c.hidden[i] && r.Intn(3) == 0 {
+				es = append(es, bkHonest(secs[i]))
+			}
+		}
+		if r.Intn(4) == 0 { // an entry that is overwritten by the genuine one
+			es = append([]bkEntry{{boxPub(secs[c.openerPos]), r.Bytes(32)}}, es...)
+		} else {
+			es = bkShuffle(r, es)
+		}
+		spec := bkSpec(es)
+		f.openLine = func(msg []byte) string { return fmt.Sprintf("bk.enc.open known %s %s", spec, keys.Hex(msg)) }
+		bkMutationCases("basic.enc.open", f, bkSomeMutations(ctx, r, f, 14, 120), emit)
+		// every position
+		for i := range secs {
+			i := i
+			ring := bkShuffle(r, []bkEntry{bkHonest(secs[i]), bkHonest(r.Bytes(32))})
+			g := f.msgs[0]
+			line := fmt.Sprintf("bk.enc.open known %s %s", bkSpec(ring), keys.Hex(g.msg))
+			out := goExec(line)
+			emit(Case{Stream: "basic.enc.open.genuine", Line: line, GoOut: out, Cmp: resCmp, Fallback: bkFallback(line),
+				Branch: fmt.Sprintf("v%d/pos=%d/hidden=%v/%s", c.major, i, c.hidden[i], resClass(out)),
+				Direct: func() string {
+					wantS := f.sender
+					if resClass(out) != "ok" || !bytes.Equal(resReleased(out), g.pt) ||
+						!strings.Contains(out, "recvsec="+keys.Hex(secs[i])+" ") || (wantS != "" && !strings.Contains(out, "sender="+wantS+" ")) ||
+						!strings.Contains(out, "ranon="+boolS(c.hidden[i])+" ") {
+						return fmt.Sprintf("encryption round trip with basic.Keyring fails: recipient_index=%d hidden=%v outcome=%s request=%s", i, c.hidden[i], trunc(out, 300), trunc(line, 400))
+					}
+					return ""
+				}})
+		}
+		// no key of the ring is a recipient's
+		{
+			ring := []bkEntry{bkHonest(r.Bytes(32)), bkHonest(r.Bytes(32))}[:1+r.Intn(2)]
+			if r.Intn(3) == 0 {
+				ring = nil
+			}
+			line := fmt.Sprintf("bk.enc.open known %s %s", bkSpec(ring), keys.Hex(f.msgs[0].msg))
+			out := goExec(line)
+			emit(Case{Stream: "basic.enc.open.nokey", Line: line, GoOut: out, Cmp: resCmp, Fallback: bkFallback(line), Branch: resClass(out),
+				Direct: func() string {
+					if resClass(out) != "no-decryption-key" || len(resReleased(out)) != 0 {
+						return fmt.Sprintf("a basic.Keyring without any recipient key got %q instead of no-decryption-key: %s", trunc(out, 200), trunc(line, 300))
+					}
+					return ""
+				}})
+		}
+		// the keys of ALL recipients in one ring: which hidden recipient the message opens as depends on
+		// Go's map iteration order — plaintext, sender and flags do not (C01_roundtrip_basic: ∃ i' sk')
+		if nr > 1 {
+			var ring []bkEntry
+			for _, s := range secs {
+				ring = append(ring, bkHonest(s))
+			}
+			g := f.msgs[len(f.msgs)-1]
+			line := fmt.Sprintf("bk.enc.open known %s %s", bkSpec(bkShuffle(r, ring)), keys.Hex(g.msg))
+			out := goExec(line)
+			drop := func(s string) string {
+				fs := strings.Fields(s)
+				for i, t := range fs {
+					if strings.HasPrefix(t, "recvsec=") {
+						fs[i] = "recvsec=*"
+					}
+				}
+				return strings.Join(fs, " ")
+			}
+			emit(Case{Stream: "basic.enc.open.order", Line: line, GoOut: out, Fallback: bkFallback(line),
+				Cmp: func(a, b string) bool {
+					if strings.Contains(a, "ranon=true") {
+						return resCmp(drop(a), drop(b))
+					}
+					return resCmp(a, b)
+				},
+				Branch: fmt.Sprintf("v%d/recips=%d/%s", c.major, nr, resClass(out)),
+				Direct: func() string {
+					if resClass(out) != "ok" || !bytes.Equal(resReleased(out), g.pt) {
+						return fmt.Sprintf("a basic.Keyring holding every recipient key does not open the message: %s -> %s", trunc(line, 300), trunc(out, 200))
+					}
+					return ""
+				}})
+		}
+	}
+	// the excluded point `Honest` of C01_roundtrip_basic: ImportBoxKey(pub of a recipient, ANOTHER secret).
+	// A visible recipient is found by its key id and the wrong secret fails to unbox (the key object's
+	// error, not no-decryption-key); a hidden recipient is tried by secret only and is not found.
+	for c := 0; c < ctx.N(6, 40); c++ {
+		hidden := c%2 == 1
+		f, secs := buildEncFamily(r, encFamilyCfg{major: 1 + (c/2)%2, anon: c%3 == 0, nRecips: 2, openerPos: c % 2,
+			hidden: []bool{hidden, hidden}, bs: 16, ptLens: []int{20}})
+		ring := bkShuffle(r, []bkEntry{{boxPub(secs[c%2]), r.Bytes(32)}, bkHonest(r.Bytes(32))})
+		line := fmt.Sprintf("bk.enc.open known %s %s", bkSpec(ring), keys.Hex(f.msgs[0].msg))
+		out := goExec(line)
+		want := "decryption-failed"
+		if hidden {
+			want = "no-decryption-key"
+		}
+		emit(Case{Stream: "basic.enc.open.dishonest", Line: line, GoOut: out, Fallback: bkFallback(line), // compared EXACTLY, error class included
+			Branch: fmt.Sprintf("hidden=%v/%s", hidden, resClass(out)),
+			Direct: func() string {
+				if resClass(out) != want || len(resReleased(out)) != 0 {
+					return fmt.Sprintf("observation: a basic.Keyring holding (recipient's public key, another secret) answered %s, expected %s: %s", resClass(out), want, trunc(line, 300))
+				}
+				return ""
+			}})
+	}
+	// the excluded point `hlen` of C01_roundtrip_basic: a recipient key object whose ToKID() is not 32 bytes
+	// (the raw key followed by extra bytes / with trailing zero bytes cut): basic.Keyring's copy-into-array
+	// lookup finds the key all the same
+	for c := 0; c < ctx.N(4, 30); c++ {
+		c := c
+		sec := r.Bytes(32)
+		pub := boxPub(sec)
+		kid := append(append([]byte(nil), pub...), r.Bytes(1+r.Intn(3))...)
+		what := "kid=raw+extra"
+		if c%2 == 1 {
+			for pub[31] != 0 { // a key whose last byte is zero, named by its first 31 bytes
+				sec = r.Bytes(32)
+				pub = boxPub(sec)
+			}
+			kid = append([]byte(nil), pub[:31]...)
+			what = "kid=raw-without-trailing-zero"
+		}
+		creator := &keys.EphCreator{Secret: r.Bytes(32)}
+		rcpt := keys.PublicFromRaw(pub, false, creator)
+		rcpt.KID = kid
+		pt := r.Bytes(20)
+		v := saltpack.Version1()
+		if c%4 >= 2 {
+			v = saltpack.Version2()
+		}
+		msg, err := saltpack.Seal(v, pt, keys.NewBoxSecret(r.Bytes(32), false, nil, creator), []saltpack.BoxPublicKey{rcpt})
+		if err != nil {
+			continue
+		}
+		line := fmt.Sprintf("bk.enc.open known %s %s", bkSpec([]bkEntry{bkHonest(sec)}), keys.Hex(msg))
+		out := goExec(line)
+		emit(Case{Stream: "basic.enc.open.kidlen", Line: line, GoOut: out, Cmp: resCmp, Fallback: bkFallback(line), Branch: what + "/" + resClass(out),
+			Direct: func() string {
+				if resClass(out) != "ok" || !bytes.Equal(resReleased(out), pt) {
+					return fmt.Sprintf("observation (%s): the message does not open: %s", what, trunc(out, 200))
+				}
+				return ""
+			}})
+	}
+}
+
+// bkBuildScFamily: buildScFamily that also returns the recipients' secrets (box recipients only are
+// openable by a basic keyring without resolver)
+func bkBuildScFamily(r *prng.R, anon bool, kinds string, bs int, ptLens []int) (*family, [][]byte, [][]byte, string) {
+	signer := r.Bytes(32)
+	n := len(kinds)
+	secs := make([][]byte, n)
+	idents := make([][]byte, n)
+	rs := make([]string, n)
+	for i := range secs {
+		secs[i] = r.Bytes(32)
+		if kinds[i] == 'b' {
+			rs[i] = "b:" + keys.Hex(boxPub(secs[i]))
+		} else {
+			idents[i] = r.Bytes(prng.Pick(r, 32, 32, 8, 40))
+			rs[i] = "s:" + keys.Hex(secs[i]) + ":" + keys.Hex(idents[i])
+		}
+	}
+	snd := keys.Hex(signer)
+	if anon {
+		snd = "anon"
+	}
+	f := &family{mode: "sc", major: 2, named: !anon}
+	f.sender = keys.Hex(sigPub(signer))
+	if anon {
+		f.sender = "anon"
+	}
+	for _, pl := range ptLens {
+		eph, pk, pt := r.Bytes(32), r.Bytes(32), r.Bytes(pl)
+		line := fmt.Sprintf("sc.sealwith %s %s %s %s %d %s", snd, strings.Join(rs, ","), keys.Hex(eph), keys.Hex(pk), bs, keys.Hex(pt))
+		msg := mustOK(askGen(line), line)
+		f.msgs = append(f.msgs, &genuineMsg{msg: msg, pt: pt, payloadKey: pk})
+	}
+	return f, secs, idents, f.sender
+}
+
+func genBasicScOpen(ctx *Ctx, emit func(Case)) {
+	r := ctx.R.Fork()
+	for fi := 0; fi < ctx.N(6, 40); fi++ {
+		kinds := prng.Pick(r, "b", "bb", "bs", "sb", "bbs", "sbb", "bbbb")
+		f, secs, idents, want := bkBuildScFamily(r, r.Intn(4) == 0, kinds, prng.Pick(r, 7, 32), []int{prng.Pick(r, 0, 1, 9, 40), prng.Pick(r, 3, 20)})
+		var boxPos []int
+		for i := range kinds {
+			if kinds[i] == 'b' {
+				boxPos = append(boxPos, i)
+			}
+		}
+		opener := boxPos[r.Intn(len(boxPos))]
+		for gi := range f.msgs {
+			f.msgs[gi].openerPos = opener
+		}
+		// ring: the opener's key, foreign keys, possibly other recipients' keys (GetAllBoxSecretKeys is
+		// iterated in map order, but tryBoxSecretKeys walks the HEADER entries outermost: the outcome
+		// does not depend on that order)
+		es := []bkEntry{bkHonest(secs[opener])}
+		for i := r.Intn(3); i > 0; i-- {
+			es = append(es, bkHonest(r.Bytes(32)))
+		}
+		for _, i := range boxPos {
+			if i != opener && r.Intn(2) == 0 {
+				es = append(es, bkHonest(secs[i]))
+			}
+		}
+		spec := bkSpec(bkShuffle(r, es))
+		f.openLine = func(msg []byte) string { return fmt.Sprintf("bk.sc.open %s none %s", spec, keys.Hex(msg)) }
+		bkMutationCases("basic.sc.open", f, bkSomeMutations(ctx, r, f, 12, 100), emit)
+		g := f.msgs[0]
+		for _, i := range boxPos {
+			i := i
+			line := fmt.Sprintf("bk.sc.open %s none %s", bkSpec(bkShuffle(r, []bkEntry{bkHonest(secs[i]), bkHonest(r.Bytes(32))})), keys.Hex(g.msg))
+			out := goExec(line)
+			emit(Case{Stream: "basic.sc.open.genuine", Line: line, GoOut: out, Cmp: resCmp, Fallback: bkFallback(line),
+				Branch: fmt.Sprintf("kinds=%s/pos=%d/%s", kinds, i, resClass(out)),
+				Direct: func() string {
+					if resClass(out) != "ok" || !bytes.Equal(resReleased(out), g.pt) || !strings.HasSuffix(out, "sender="+want) {
+						return fmt.Sprintf("signcryption round trip with basic.Keyring fails: kinds=%s recipient_index=%d outcome=%s request=%s", kinds, i, trunc(out, 200), trunc(line, 400))
+					}
+					return ""
+				}})
+		}
+		// symmetric-key recipients: an EMPTY or foreign basic keyring plus a resolver
+		for i := range kinds {
+			if kinds[i] != 's' {
+				continue
+			}
+			ring := []bkEntry{}
+			if r.Bool() {
+				ring = append(ring, bkHonest(r.Bytes(32)))
+			}
+			line := fmt.Sprintf("bk.sc.open %s map:%s=%s %s", bkSpec(ring), keys.Hex(idents[i]), keys.Hex(secs[i]), keys.Hex(g.msg))
+			out := goExec(line)
+			emit(Case{Stream: "basic.sc.open.genuine", Line: line, GoOut: out, Cmp: resCmp, Fallback: bkFallback(line),
+				Branch: fmt.Sprintf("kinds=%s/sym/%s", kinds, resClass(out)),
+				Direct: func() string {
+					if resClass(out) != "ok" || !bytes.Equal(resReleased(out), g.pt) || !strings.HasSuffix(out, "sender="+want) {
+						return fmt.Sprintf("signcryption round trip (symmetric recipient, basic.Keyring + resolver) fails: %s -> %s", trunc(line, 400), trunc(out, 200))
+					}
+					return ""
+				}})
+		}
+		// no recipient key
+		{
+			ring := []bkEntry{bkHonest(r.Bytes(32))}
+			if r.Intn(3) == 0 {
+				ring = nil
+			}
+			line := fmt.Sprintf("bk.sc.open %s %s %s", bkSpec(ring), prng.Pick(r, "none", "map:-"), keys.Hex(g.msg))
+			out := goExec(line)
+			emit(Case{Stream: "basic.sc.open.nokey", Line: line, GoOut: out, Cmp: resCmp, Fallback: bkFallback(line), Branch: resClass(out),
+				Direct: func() string {
+					if resClass(out) != "no-decryption-key" || len(resReleased(out)) != 0 {
+						return fmt.Sprintf("a basic.Keyring without any recipient key got %q instead of no-decryption-key", trunc(out, 200))
+					}
+					return ""
+				}})
+		}
+	}
+}
+
+func bkSigSpec(r *prng.R) string {
+	var es []bkEntry
+	for i := r.Intn(3); i > 0; i-- {
+		seed := r.Bytes(32)
+		es = append(es, bkEntry{sigPub(seed), append(append([]byte(nil), seed...), sigPub(seed)...)})
+	}
+	return bkSpec(es)
+}
+
+func genBasicVerify(ctx *Ctx, emit func(Case)) {
+	r := ctx.R.Fork()
+	for fi := 0; fi < ctx.N(6, 40); fi++ {
+		bs := prng.Pick(r, 6, 50)
+		f := buildSigFamily(r, 1+fi%2, 0, bs, []int{prng.Pick(r, 0, 1, 10, 60), prng.Pick(r, 2, 13)}, "")
+		// the signer is never imported: LookupSigningPublicKey does not consult the keyring
+		spec := bkSigSpec(r)
+		f.openLine = func(msg []byte) string { return fmt.Sprintf("bk.sig.verify known %s %s", spec, keys.Hex(msg)) }
+		bkMutationCases("basic.sig.verify", f, bkSomeMutations(ctx, r, f, 12, 100), emit)
+		for _, g := range f.msgs {
+			g := g
+			line := f.openLine(g.msg)
+			out := goExec(line)
+			emit(Case{Stream: "basic.sig.verify.genuine", Line: line, GoOut: out, Cmp: resCmp, Fallback: bkFallback(line),
+				Branch: fmt.Sprintf("v%d/%s", f.major, resClass(out)),
+				Direct: func() string {
+					if resClass(out) != "ok" || !bytes.Equal(resReleased(out), g.pt) || !strings.HasSuffix(out, "signer="+f.sender) {
+						return fmt.Sprintf("attached-signature round trip with basic.Keyring fails: %s -> %s", trunc(line, 300), trunc(out, 200))
+					}
+					return ""
+				}})
+		}
+	}
+}
+
+func genBasicVerifyDetached(ctx *Ctx, emit func(Case)) {
+	r := ctx.R.Fork()
+	for c := 0; c < ctx.N(10, 80); c++ {
+		seed := r.Bytes(32)
+		msg := r.Bytes(prng.Pick(r, 0, 1, 20, 100))
+		major := 1 + c%2
+		sline := fmt.Sprintf("bk.sig.detached %d 0 %s %s %s", major, keys.Hex(seed), keys.Hex(r.Bytes(16)), hexOrDash(msg))
+		sout := goExec(sline)
+		emit(Case{Stream: "basic.sig.detached", Line: sline, GoOut: sout, Branch: fmt.Sprintf("v%d", major)})
+		sig, ok := okBytes(sout)
+		if !ok {
+			continue
+		}
+		spec := bkSigSpec(r)
+		variants := []struct {
+			label    string
+			sig, msg []byte
+			want     string
+		}{
+			{"genuine", sig, msg, "ok"},
+			{"other-message", sig, append([]byte{7}, msg...), "bad-signature"},
+			{"sig-bit-flipped", flipBit(sig, r), msg, ""},
+			{"sig-truncated", sig[:len(sig)-1-r.Intn(10)], msg, ""},
+		}
+		for _, v := range variants {
+			v := v
+			line := fmt.Sprintf("bk.sig.verifydetached known %s %s %s", spec, keys.Hex(v.sig), hexOrDash(v.msg))
+			out := goExec(line)
+			emit(Case{Stream: "basic.sig.verifydetached", Line: line, GoOut: out, Cmp: resCmp, Fallback: bkFallback(line),
+				Branch: fmt.Sprintf("v%d/%s/%s", major, v.label, resClass(out)),
+				Direct: func() string {
+					if v.want != "" && resClass(out) != v.want {
+						return fmt.Sprintf("detached signature (%s) with basic.Keyring: outcome %s, expected %s: %s", v.label, resClass(out), v.want, trunc(line, 300))
+					}
+					if v.label == "genuine" && !strings.HasSuffix(out, "signer="+keys.Hex(sigPub(seed))) {
+						return "detached round trip with basic.Keyring reports another signer: " + trunc(out, 200)
+					}
+					if v.label != "genuine" && resClass(out) == "ok" && !bytes.Equal(v.sig, sig) {
+						return "a modified detached signature verified: " + trunc(line, 300)
+					}
+					return ""
+				}})
+		}
+	}
+}
+
+// senders whose key objects are all basic's: byte-exact against the model under a scripted
+// crypto/rand.Reader (the ephemeral key is read by basic.EphemeralKeyCreator), then the round-trip
+// predicate on the implementation: opening with a basic keyring that holds recipient i returns the plaintext
+func genBasicSeal(ctx *Ctx, emit func(Case)) {
+	r := ctx.R.Fork()
+	for c := 0; c < ctx.N(10, 120); c++ {
+		v := saltpack.Version{Major: 1 + c%2}
+		n := prng.Pick(r, 1, 1, 2, 3, 4)
+		var secs [][]byte
+		var pubs []string
+		for i := 0; i < n; i++ {
+			secs = append(secs, r.Bytes(32))
+			pubs = append(pubs, keys.Hex(boxPub(secs[i])))
+		}
+		sender := r.Bytes(32)
+		snd := keys.Hex(sender)
+		anon := r.Intn(3) == 0
+		if anon {
+			snd = "anon"
+		}
+		fault, mode := -1, 0
+		if c%5 == 4 {
+			fault, mode = r.Intn(n+1), r.Intn(3)
+		}
+		src := randScript(r, n, true, fault, mode)
+		pt := r.Bytes(smallLen(r) % 300)
+		line := fmt.Sprintf("bk.enc.seal %d 0 %s %s %s %s", v.Major, snd, strings.Join(pubs, ","), src.Spec(), hexOrDash(pt))
+		out := goExec(line)
+		emit(Case{Stream: "basic.enc.seal", Line: line, GoOut: out, Branch: fmt.Sprintf("v%d/recips=%d/anon=%v/fault=%v/%s", v.Major, n, anon, fault >= 0, strings.Fields(out)[0]),
+			Direct: func() string {
+				msg, ok := okBytes(out)
+				if !ok {
+					if fault < 0 {
+						return "Seal with basic keys failed: " + trunc(line, 300) + " -> " + out
+					}
+					return ""
+				}
+				for i := range secs {
+					k := basic.NewKeyring()
+					var foreign [32]byte
+					copy(foreign[:], r.Bytes(32))
+					for _, s := range [][]byte{foreign[:], secs[i]} {
+						var p, q [32]byte
+						copy(p[:], boxPub(s))
+						copy(q[:], s)
+						k.ImportBoxKey(&p, &q)
+					}
+					mki, got, err := saltpack.Open(saltpack.CheckKnownMajorVersion, msg, k)
+					if err != nil || !bytes.Equal(got, pt) {
+						return fmt.Sprintf("round trip (Seal with basic keys, Open with a basic.Keyring holding recipient %d) fails: err=%v request=%s", i, err, trunc(line, 300))
+					}
+					if mki.SenderIsAnon != anon || (!anon && !bytes.Equal(mki.SenderKey.ToKID(), boxPub(sender))) {
+						return fmt.Sprintf("round trip with basic.Keyring reports a wrong sender: request=%s", trunc(line, 300))
+					}
+				}
+				return ""
+			}})
+	}
+	// a freshly GENERATED key (real crypto/rand): seal to it, open with the keyring that generated it
+	for c := 0; c < ctx.N(4, 30); c++ {
+		k := basic.NewKeyring()
+		var gen []*basic.SecretKey
+		for i := 0; i < 1+c%3; i++ {
+			sk, err := k.GenerateBoxKey()
+			if err != nil {
+				panic(err)
+			}
+			gen = append(gen, sk)
+		}
+		es := make([]bkEntry, len(gen))
+		for i, sk := range gen {
+			es[i] = bkEntry{sk.GetRawPublicKey()[:], sk.GetRawSecretKey()[:]}
+		}
+		target := gen[r.Intn(len(gen))]
+		pt := r.Bytes(40)
+		v := saltpack.Version{Major: 1 + c%2}
+		msg, err := saltpack.Seal(v, pt, nil, []saltpack.BoxPublicKey{target.GetPublicKey()})
+		if err != nil {
+			panic(err)
+		}
+		_, got, err2 := saltpack.Open(saltpack.CheckKnownMajorVersion, msg, k)
+		// the same keyring rebuilt from a spec, for the model
+		line := fmt.Sprintf("bk.enc.open known %s %s", bkSpec(es), keys.Hex(msg))
+		out := goExec(line)
+		emit(Case{Stream: "basic.enc.open.generated", Line: line, GoOut: out, Cmp: resCmp, Fallback: bkFallback(line), Branch: fmt.Sprintf("v%d/keys=%d/%s", v.Major, len(gen), resClass(out)),
+			Direct: func() string {
+				if err2 != nil || !bytes.Equal(got, pt) {
+					return fmt.Sprintf("round trip with a key made by basic.Keyring.GenerateBoxKey fails: err=%v", err2)
+				}
+				if resClass(out) != "ok" || !bytes.Equal(resReleased(out), pt) {
+					return "the keyring rebuilt by ImportBoxKey does not open the message: " + trunc(out, 200)
+				}
+				return ""
+			}})
+	}
+}
+
+func genBasicScSeal(ctx *Ctx, emit func(Case)) {
+	r := ctx.R.Fork()
+	for c := 0; c < ctx.N(8, 80); c++ {
+		n := prng.Pick(r, 1, 2, 3)
+		var secs [][]byte
+		var pubs []string
+		for i := 0; i < n; i++ {
+			secs = append(secs, r.Bytes(32))
+			pubs = append(pubs, keys.Hex(boxPub(secs[i])))
+		}
+		seed := r.Bytes(32)
+		snd := keys.Hex(seed)
+		anon := r.Intn(3) == 0
+		if anon {
+			snd = "anon"
+		}
+		fault, mode := -1, 0
+		if c%4 == 3 {
+			fault, mode = r.Intn(n+1), r.Intn(3)
+		}
+		src := randScript(r, n, true, fault, mode)
+		pt := r.Bytes(smallLen(r) % 200)
+		line := fmt.Sprintf("bk.sc.seal %s %s %s %s", snd, strings.Join(pubs, ","), src.Spec(), hexOrDash(pt))
+		out := goExec(line)
+		emit(Case{Stream: "basic.sc.seal", Line: line, GoOut: out, Branch: fmt.Sprintf("recips=%d/anon=%v/fault=%v/%s", n, anon, fault >= 0, strings.Fields(out)[0]),
+			Direct: func() string {
+				msg, ok := okBytes(out)
+				if !ok {
+					if fault < 0 {
+						return "SigncryptSeal with basic keys failed: " + trunc(line, 300) + " -> " + out
+					}
+					return ""
+				}
+				for i := range secs {
+					k := bkRing(bkSpec([]bkEntry{bkHonest(r.Bytes(32)), bkHonest(secs[i])}), "-")
+					spk, got, err := saltpack.SigncryptOpen(msg, k, nil)
+					if err != nil || !bytes.Equal(got, pt) {
+						return fmt.Sprintf("round trip (SigncryptSeal with basic keys, SigncryptOpen with a basic.Keyring holding recipient %d) fails: err=%v request=%s", i, err, trunc(line, 300))
+					}
+					if (spk == nil) != anon || (!anon && !bytes.Equal(spk.ToKID(), sigPub(seed))) {
+						return "signcryption round trip with basic.Keyring reports a wrong sender: " + trunc(line, 300)
+					}
+				}
+				return ""
+			}})
+	}
+}
+
+func genBasicSign(ctx *Ctx, emit func(Case)) {
+	r := ctx.R.Fork()
+	for c := 0; c < ctx.N(8, 80); c++ {
+		seed := r.Bytes(32)
+		msg := r.Bytes(smallLen(r) % 300)
+		major := 1 + c%2
+		src := &script.Source{Reads: []script.Read{{Data: r.Bytes(16)}}}
+		switch c % 6 {
+		case 3:
+			d := r.Bytes(16)
+			src = &script.Source{Reads: []script.Read{{Data: d[:5]}, {Data: d[5:]}}}
+		case 5:
+			src = &script.Source{Reads: []script.Read{{Data: r.Bytes(7), Err: true}}}
+		}
+		line := fmt.Sprintf("bk.sig.attached %d 0 %s %s %s", major, keys.Hex(seed), src.Spec(), hexOrDash(msg))
+		out := goExec(line)
+		emit(Case{Stream: "basic.sig.attached", Line: line, GoOut: out, Branch: fmt.Sprintf("v%d/%s", major, strings.Fields(out)[0]),
+			Direct: func() string {
+				signed, ok := okBytes(out)
+				if !ok {
+					return ""
+				}
+				skey, got, err := saltpack.Verify(saltpack.CheckKnownMajorVersion, signed, basic.NewKeyring())
+				if err != nil || !bytes.Equal(got, msg) || !bytes.Equal(skey.ToKID(), sigPub(seed)) {
+					return fmt.Sprintf("round trip (Sign with a basic signing key, Verify with a basic.Keyring) fails: err=%v request=%s", err, trunc(line, 300))
+				}
+				return ""
+			}})
+	}
+}
+
 func init() {
-	// regExtra("Cnn", func(ctx *Ctx, emit func(Case)) { … })
+	regExtra("C01", func(ctx *Ctx, emit func(Case)) {
+		genBasicLookups(ctx, emit)
+		genBasicKeyObjects(ctx, emit)
+		genBasicCreator(ctx, emit)
+		genBasicEncOpen(ctx, emit)
+		genBasicSeal(ctx, emit)
+	})
+	regExtra("C03", func(ctx *Ctx, emit func(Case)) {
+		genBasicLookups(ctx, emit)
+		genBasicCreator(ctx, emit)
+		genBasicScOpen(ctx, emit)
+		genBasicScSeal(ctx, emit)
+	})
+	regExtra("C05", func(ctx *Ctx, emit func(Case)) {
+		genBasicLookups(ctx, emit)
+		genBasicKeyObjects(ctx, emit)
+		genBasicVerify(ctx, emit)
+		genBasicVerifyDetached(ctx, emit)
+		genBasicSign(ctx, emit)
+	})
+	regExtra("C07", func(ctx *Ctx, emit func(Case)) {
+		genBasicVerifyDetached(ctx, emit)
+	})
+	regExtra("C18", func(ctx *Ctx, emit func(Case)) {
+		genBasicCreator(ctx, emit)
+	})
 }
